@@ -760,8 +760,19 @@ pub fn check(property: &str, tier: Tier) -> i32 {
     if !divergences.is_empty() {
         eprintln!("warning: {} determinism divergences (first script kept in evidence)", dup_diverged);
     }
+    // a family most of whose runs could not be judged has explored nothing: passing would be a lie
+    let mut unjudged: BTreeMap<String, (u64, u64)> = BTreeMap::new();
+    for s in &stats {
+        let e = unjudged.entry(s.family.clone()).or_insert((0, 0));
+        e.0 += s.evaluations;
+        e.1 += s.inconclusive;
+    }
+    let starved: Vec<String> = unjudged.iter().filter(|(_, (n, i))| *n > 0 && *i * 2 > *n).map(|(f, (n, i))| format!("{f}: {i} of {n} runs inconclusive")).collect();
     if new_violations > 0 {
         1
+    } else if !starved.is_empty() {
+        eprintln!("harness error: nothing was decided by {starved:?} (see the run logs: `dst run {property} <family> <index>`)");
+        2
     } else if evaluations == 0 {
         eprintln!("harness error: nothing executed");
         2
